@@ -666,6 +666,11 @@ def c16_run(tid, wcfg, cfgline, state, rule, method, cred, bname, body, rq):
     o = rec.step({'k': 'rest', 'c': 0, 'rule': rule, 'method': method, 'cred': cred, 'body': body if method in ('POST', 'PUT', 'OPTIONS', 'PATCH', 'DELETE') else None, 'm': bname}, 0,
                  extra={'rq': rq})
     rec.lines[-1]['statsame'] = (pre == o['stat'])
+    if state == 'ESTABLISHED' and cred == 'good' and method == 'POST' and RULE_CLASS.get(rule) in ('send', 'gated'):
+        # the same request once more: nothing a request leaves behind may change how the next one is served
+        pre2 = rec.pre['o']['stat']
+        o2 = rec.step({'k': 'rest', 'c': 0, 'rule': rule, 'method': method, 'cred': cred, 'body': body, 'm': bname}, 0, extra={'rq': rq})
+        rec.lines[-1]['statsame'] = (pre2 == o2['stat'])
     # what the request left behind must not break the next ordinary events
     if rec.pre['st'] == 'ESTABLISHED' and rec.pre['trcs'] == 'open':
         rec.step({'k': 'msg', 'c': rec.pre['tr'], 'm': 'KA'}, rec.pre['tr'])
